@@ -133,7 +133,76 @@ def run(prop, rep, pdb):
     rule = "the anchored functions and their local callees touch no static and no thread_local! (no state survives a call)"
     rep.add("hidden-state/statics", rule, not bad, bad[0][1] if bad else None, "functions inspected: %d; %s" % (len(seen), ["%s in %s" % (b[2], b[0]["path"]) for b in bad][:4]),
             where=loc(bad[0][1]) if bad else "crate ohsl")
+    # dead stores in the anchored functions and their local callees: a store that the very next statement overwrites
+    # unconditionally without reading it is a lost `else`, a lost accumulation or a stale statement - the computed value never
+    # reaches anything
+    dead = []
+    n_fn = 0
+    for p, f in seen.items():
+        n_fn += 1
+        dead.extend(dead_stores(pdb, f))
+    rep.add("no-dead-store", "no store is overwritten by the next statement without having been read (an `if c { x -= a } x = b` whose `else` got lost makes the conditional update dead)",
+            not dead, dead[0][1] if dead else None, "functions inspected: %d; dead stores: %s" % (n_fn, ["%s in %s" % (loc(d[1]), d[0]["path"]) for d in dead][:4]),
+            where=loc(dead[0][1]) if dead else "crate ohsl")
     return {"hidden_state": {"types": n_types, "mutators_of_cached_types": n_mut, "functions_inspected_for_statics": len(seen)}}
+
+
+def dead_stores(pdb, f):
+    from .pdb import strip
+    ctx = Ctx.for_fn(pdb, f)
+    out = []
+
+    def stores_only(e):
+        """the place P if expression-statement e does nothing but store to one place P (an assignment, or an `if` whose arms do),
+        and reads nothing through a call with side effects"""
+        e = strip(e)
+        k = e.get("k")
+        if k in ("Assign", "AssignOp"):
+            if any(x.get("k") in ("Call", "MethodCall") and str(x.get("ty")) == "()" for x in walk(e["r"])):
+                return None
+            return ctx.term(e["l"])
+        if k == "If":
+            ps = set()
+            for br in (e["then"], e.get("else")):
+                if br is None:
+                    continue
+                b = strip(br)
+                items = [strip(x.get("e") or {}) for x in b.get("stmts", [])] + ([strip(b["expr"])] if b.get("expr") is not None else []) if b.get("k") == "Block" else [b]
+                if not items or any(x_.get("k") == "Let" for x_ in b.get("stmts", [])):
+                    return None
+                for it in items:
+                    q = stores_only(it)
+                    if q is None:
+                        return None
+                    ps.add(q)
+            return list(ps)[0] if len(ps) == 1 else None
+        return None
+
+    def mentions(t, root):
+        if t == root:
+            return True
+        return isinstance(t, tuple) and any(mentions(x, root) for x in t if isinstance(x, tuple))
+    for blk in [n for n in walk(f["body"]) if n.get("k") == "Block" and not in_macro(n)]:
+        sts = [x for x in blk.get("stmts", [])]
+        seq = [strip(x.get("e") or {}) if x.get("k") in ("Semi", "Expr") else None for x in sts]
+        if blk.get("expr") is not None:
+            seq.append(strip(blk["expr"]))
+        for a, b in zip(seq, seq[1:]):
+            if a is None or b is None or a.get("m") or b.get("m") or a.get("x") or b.get("x"):
+                continue
+            if b.get("k") != "Assign":
+                continue
+            P_ = stores_only(a)
+            if P_ is None or P_ != ctx.term(b["l"]):
+                continue
+            # the overwriting right-hand side must not read the place (nor, for an element store, anything of its container)
+            root = P_
+            while root[0] in ("idx", "field") and len(root) > 1:
+                root = root[1]
+            if mentions(ctx.term(b["r"]), root):
+                continue
+            out.append((f, a))
+    return out
 
 
 def in_macro_static_ok(n):
